@@ -151,13 +151,18 @@ func (e *recEnc) AddInt64(k string, v int64)     { e.leaf(k, "i64", strconv.Form
 func (e *recEnc) AddInt32(k string, v int32)     { e.leaf(k, "i32", strconv.FormatInt(int64(v), 10)) }
 func (e *recEnc) AddInt16(k string, v int16)     { e.leaf(k, "i16", strconv.FormatInt(int64(v), 10)) }
 func (e *recEnc) AddInt8(k string, v int8)       { e.leaf(k, "i8", strconv.FormatInt(int64(v), 10)) }
-func (e *recEnc) AddString(k, v string)          { e.leaf(k, "str", v) }
-func (e *recEnc) AddTime(k string, v time.Time)  { e.leaf(k, "time", timeText(v)) }
-func (e *recEnc) AddUint(k string, v uint)       { e.leaf(k, "uint", strconv.FormatUint(uint64(v), 10)) }
-func (e *recEnc) AddUint64(k string, v uint64)   { e.leaf(k, "u64", strconv.FormatUint(v, 10)) }
-func (e *recEnc) AddUint32(k string, v uint32)   { e.leaf(k, "u32", strconv.FormatUint(uint64(v), 10)) }
-func (e *recEnc) AddUint16(k string, v uint16)   { e.leaf(k, "u16", strconv.FormatUint(uint64(v), 10)) }
-func (e *recEnc) AddUint8(k string, v uint8)     { e.leaf(k, "u8", strconv.FormatUint(uint64(v), 10)) }
+func (e *recEnc) AddString(k, v string) {
+	if strings.HasPrefix(v, "LogValue panicked\n") {
+		v = "LogValue panicked" // the rest is the stack of the contained panic
+	}
+	e.leaf(k, "str", v)
+}
+func (e *recEnc) AddTime(k string, v time.Time) { e.leaf(k, "time", timeText(v)) }
+func (e *recEnc) AddUint(k string, v uint)      { e.leaf(k, "uint", strconv.FormatUint(uint64(v), 10)) }
+func (e *recEnc) AddUint64(k string, v uint64)  { e.leaf(k, "u64", strconv.FormatUint(v, 10)) }
+func (e *recEnc) AddUint32(k string, v uint32)  { e.leaf(k, "u32", strconv.FormatUint(uint64(v), 10)) }
+func (e *recEnc) AddUint16(k string, v uint16)  { e.leaf(k, "u16", strconv.FormatUint(uint64(v), 10)) }
+func (e *recEnc) AddUint8(k string, v uint8)    { e.leaf(k, "u8", strconv.FormatUint(uint64(v), 10)) }
 func (e *recEnc) AddUintptr(k string, v uintptr) {
 	e.leaf(k, "uptr", strconv.FormatUint(uint64(v), 10))
 }
